@@ -456,6 +456,43 @@ def run_extension_types(case, part):
         env.registry_restore(snap)
 
 
+def run_dict_kept_junk(case, part):
+    """content the stores keep as the caller's dictionaries (no registered class) with junk in the members the STORES themselves read (id, modified, created, type):
+    a refused add leaves the store as it was - and still able to answer"""
+    from stix2 import FileSystemStore, MemoryStore
+    env.reset()
+    part.state(("dict-kept-junk",), nontrivial=True)
+    TS = "2016-05-12T08:17:27.000Z"
+    base = {"type": "x-unreg", "spec_version": "2.1", "id": "x-unreg--3f7f0c5f-5d54-4292-94ea-ec1e1952be41", "created": TS, "modified": TS, "name": "n"}
+    for member in ("modified", "created", "id", "type", "spec_version"):
+        for jl, jv in JUNK:
+            j = dict(copy.deepcopy(base), id="x-unreg--3f7f0c5f-5d54-4292-94ea-ec1e1952be42")
+            j[member] = copy.deepcopy(jv)
+            for sname in ("MemoryStore.add", "FileSystemStore.add"):
+                d = env.scratch_dir("c17j") if sname.startswith("File") else None
+                try:
+                    st = MemoryStore(allow_custom=True) if d is None else FileSystemStore(d, allow_custom=True)
+                    try:
+                        st.add(copy.deepcopy(base))
+                    except Exception:
+                        continue
+                    before = sorted(map(repr, st._data)) if d is None else sorted(f for dp, dn, fn in os.walk(d) for f in fn)
+                    c = dict(case, member=member, junk=jl, entry=sname)
+                    ok = call(part, sname + "(dict kept as it is)", lambda: st.add(j), c, "dict-kept/%s<-%s" % (member, kind_of(jv)))
+                    after = sorted(map(repr, st._data)) if d is None else sorted(f for dp, dn, fn in os.walk(d) for f in fn)
+                    if not ok and after != before:
+                        part.violation("C17/store-changed-after-failure/%s(dict-kept)" % sname, "a refused add of a dictionary the store keeps as it is changed the store", c, before, after)
+                    try:
+                        st.query([])
+                        st.get(base["id"])
+                        part.outcome("dict-kept:store-answers")
+                    except Exception as e:
+                        part.violation("C17/store-broken-after-add/%s(dict-kept)" % sname, "after an add of junk the store no longer answers", c, "answers", "%s: %s" % (type(e).__name__, str(e)[:120]))
+                finally:
+                    if d:
+                        shutil.rmtree(d, ignore_errors=True)
+
+
 def run_partial_bundle(case, part):
     """PARTIAL failure: a bundle (dict and text) whose FIRST member is fine and whose later member is refused, handed to the file-system sink / store: the bundle is one
     document - it is refused as a whole and nothing of it is written.  (A memory store, and a plain list handed to either store, add member by member by design.)"""
@@ -683,6 +720,8 @@ def run_fail_then_register(case, part):
 def run_case(case, part):
     if case.get("kind") == "partial-bundle":
         return run_partial_bundle(case, part)
+    if case.get("kind") == "dict-kept-junk":
+        return run_dict_kept_junk(case, part)
     if case.get("kind") == "names":
         return run_names(case, part)
     if case.get("kind") == "depths":
@@ -745,6 +784,7 @@ def run(run):
     run.bound = {"junk_values": len(JUNK) + len(DEEP), "replacements": 2 if th else 1, "entry_points": 6, "bases": 2 * 77}
     run.assumptions += ["instances from the frozen spec model", "only JSON-decodable inputs; nesting that defeats json.loads itself is excluded (deep junk goes through dict forms only)"]
     cases.append({"kind": "partial-bundle"})
+    cases.append({"kind": "dict-kept-junk"})
     run.pmap(run_case, cases, order_independent=True)
     run.part.sample({"version": "2.1", "key": "observables:file", "label": "max", "slot": ["extensions"], "junk": "[1]", "allow_custom": False, "entry": "parse(dict)"})
     run.part.sample({"kind": "value", "value": {"type": "bundle", "objects": [None]}, "allow_custom": True})
